@@ -7,8 +7,8 @@ every constant returned by the comparator, each with the conjunction of control 
 import re
 from . import mir, sym, guards, diag
 
-APPEND = re.compile(r"(string::String::push|string::String::push_str|fmt::Write::write_fmt|Write>?::write_fmt|writer::Writer::add_whitespace|writer::Writer::add_str|writer::apply_position_restrictions|writer::Writer::sort_function)$")
-ORDER = re.compile(r"(sort_by|sort_unstable_by|sort_by_key|sort_unstable_by_key|sort_by_cached_key|HashSet<.*>::insert|HashSet<.*>::contains|hash::set::HashSet::insert|hash::set::HashSet::contains|::cmp|::partial_cmp|::total_cmp|iter::Iterator::filter|iter::Iterator::rev|iter::Iterator::skip|iter::Iterator::take|iter::Iterator::step_by|str::<impl str>::contains|str::<impl str>::starts_with|char::methods::<impl char>::is_whitespace|slice::<impl \[T\]>::swap|slice::<impl \[T\]>::reverse|Vec<.*>::insert|Vec<.*>::remove|Vec<.*>::swap_remove|vec::Vec::insert|vec::Vec::remove|vec::Vec::swap_remove|vec::Vec::push)$")
+APPEND = re.compile(r"(string::String::push|string::String::push_str|fs::write|specification::A2lFile::write_to_string|fmt::Write::write_fmt|Write>?::write_fmt|writer::Writer::add_whitespace|writer::Writer::add_str|writer::apply_position_restrictions|writer::Writer::sort_function)$")
+ORDER = re.compile(r"(sort_by|sort_unstable_by|sort_by_key|sort_unstable_by_key|sort_by_cached_key|HashSet(<.*>)?::insert|HashSet(<.*>)?::contains|::cmp|::partial_cmp|::total_cmp|iter::Iterator::filter|iter::Iterator::rev|iter::Iterator::skip|iter::Iterator::take|iter::Iterator::step_by|str::<impl str>::contains|str::<impl str>::starts_with|char::methods::<impl char>::is_whitespace|slice::<impl \[T\]>::swap|slice::<impl \[T\]>::reverse|Vec<.*>::insert|Vec<.*>::remove|Vec<.*>::swap_remove|vec::Vec::insert|vec::Vec::remove|vec::Vec::swap_remove|vec::Vec::push)$")
 
 
 def _lit(b, S, t):
@@ -45,6 +45,8 @@ def _lit_text(eff):
 
 def table(prog):
     fids = [f for f, b in prog.bodies.items() if b.file == "a2lfile/src/writer.rs" and not f.startswith("writer::test")]
+    # the two entry points that assemble the file text (banner, first line)
+    fids += [f for f, b in prog.bodies.items() if b.file == "a2lfile/src/lib.rs" and re.search(r"A2lFile>?::(write|write_to_string)$", mir.strip_generics(f)) and b.kind != "Closure"]
     A = sym.Analyzer(prog, opaque=[r"writer::.*"])
     t = {}
     for fid in sorted(fids):
@@ -93,3 +95,25 @@ def table(prog):
 
 def compare(chk, rule, fn_filter=None, floor=1):
     diag.compare(chk, rule, "writer", table(mir.prog()), "text production and ordering decisions of writer.rs (what is appended / sorted / skipped under which condition), compared with the reviewed table", floor=floor, fn_filter=fn_filter)
+
+
+IFW = re.compile(r"(writer::Writer::(add_\w+|finish|new)|a2ml::GenericIfData::(write|write_item)|vec::Vec::push|Vec::push)$")
+
+
+def ifdata_table(prog):
+    """rows of GenericIfData::write / write_item: which writer call emits which variant's value (and location), the recursion into
+    nested items, the tagged items handed to add_group"""
+    fids = [f for f in prog.bodies if re.search(r"a2ml::GenericIfData::(write|write_item)$", mir.strip_generics(f))]
+    A = sym.Analyzer(prog, opaque=[r"writer::.*", r"a2ml::.*"])
+
+    def eff(b, S, ev):
+        nm = mir.strip_generics(ev[1])
+        if IFW.search(nm):
+            args = ev[2][1:] if ev[2] else []
+            return "%s(%s)" % (nm.split("::")[-1], ", ".join(guards.fmt_terms(a, limit=2) for a in args[:3]))
+        return None
+    return diag.table_for(prog, A, fids, eff)
+
+
+def compare_ifdata(chk, rule, floor=10):
+    diag.compare(chk, rule, "ifdatawriter", ifdata_table(mir.prog()), "writer calls of GenericIfData::write / write_item (which variant is written with which call, value and location; recursion into nested items), compared with the reviewed table", floor=floor)
